@@ -226,9 +226,16 @@ package httpgen
 //@   modifies contexts
 //@   decreases spec.mdepth(msg)
 
+// whether a root-unwrap map's value message is itself unwrapped (the combined form {"k": [...]}) is a property of that
+// value message alone - decided by its own annotation, wherever it is declared - not of the table of this invocation
 //@ func collectRootUnwrapMessages(messages []*protogen.Message, unwrapMessages map[string]*annotations.UnwrapFieldInfo, ctx *UnwrapContext)
+//@   requires ctx != nil
 //@   modifies ctx
 //@   decreases spec.depth(messages)
+//@   ensures only_appends: len(ctx.RootUnwrapMessages) >= old(len(ctx.RootUnwrapMessages)) && (forall k int :: 0 <= k && k < old(len(ctx.RootUnwrapMessages)) ==> ctx.RootUnwrapMessages[k] == old(ctx.RootUnwrapMessages[k]))
+//@   ensures value_unwrap_by_annotation: forall k int :: old(len(ctx.RootUnwrapMessages)) <= k && k < len(ctx.RootUnwrapMessages) ==> ctx.RootUnwrapMessages[k] != nil && (ctx.RootUnwrapMessages[k].ValueMessage != nil ==> ((ctx.RootUnwrapMessages[k].ValueUnwrap != nil) <==> spec.hasValidUnwrap(ctx.RootUnwrapMessages[k].ValueMessage)))
+//@   loop 1 invariant len(ctx.RootUnwrapMessages) >= old(len(ctx.RootUnwrapMessages)) && (forall k int :: 0 <= k && k < old(len(ctx.RootUnwrapMessages)) ==> ctx.RootUnwrapMessages[k] == old(ctx.RootUnwrapMessages[k]))
+//@   loop 1 invariant forall k int :: old(len(ctx.RootUnwrapMessages)) <= k && k < len(ctx.RootUnwrapMessages) ==> ctx.RootUnwrapMessages[k] != nil && (ctx.RootUnwrapMessages[k].ValueMessage != nil ==> ((ctx.RootUnwrapMessages[k].ValueUnwrap != nil) <==> spec.hasValidUnwrap(ctx.RootUnwrapMessages[k].ValueMessage)))
 
 //@ func collectUnwrapFieldsRecursive(messages []*protogen.Message, result map[string]*annotations.UnwrapFieldInfo) (err error)
 //@   decreases spec.depth(messages)
